@@ -32,9 +32,13 @@ def hier_case(draw):
     T = max(T, fs)
     nested = draw(st.booleans())
     ri, rl = draw(gs.hierarchy(T, nested=nested))
-    how = draw(st.sampled_from(["indep", "indep", "indep", "same", "prefix"]))
+    how = draw(st.sampled_from(["indep", "indep", "indep", "same", "prefix", "same_bounds_other_labels"]))
     if how == "indep":
         ei, el = draw(gs.hierarchy(T, nested=nested))
+    elif how == "same_bounds_other_labels":
+        # identical boundaries at every level, labels drawn afresh: only the label-agreement (L-measure) may differ
+        ei = [[list(r) for r in lv] for lv in ri]
+        el = [draw(st.lists(st.sampled_from(list("abAB")), min_size=len(lv), max_size=len(lv))) for lv in ri]
     elif how == "same":
         ei, el = [[list(r) for r in lv] for lv in ri], [list(l) for l in rl]
     else:
